@@ -35,6 +35,7 @@ CONSTANTS MaxN,          \* layers L1..L<n>, n <= MaxN
           Stops,         \* set of BOOLEAN: --stop-on-error
           Modes,         \* subset of {"seq", "par"} (-j 1 / -j N)
           HookModes,     \* subset of {"all", "some"}: hook-less layers too?
+          Logging,       \* keep the event history (only needed by Trace_RunnerI)
           Deviations
 
 VARIABLES w, opt,        \* the world and options (chosen in Init, then fixed)
@@ -74,7 +75,7 @@ Mon(m, e, c) == IF e # "" /\ m.err = "" THEN [m EXCEPT !.err = e] ELSE m
 (* the observable events of the current process, in order (history: it is    *)
 (* what Trace_RunnerI.tla compares with the events recorded from real runs); *)
 (* m.done collects the logs of the processes that have ended                 *)
-Log(m, ev) == [m EXCEPT !.log = Append(@, ev)]
+Log(m, ev) == IF Logging THEN [m EXCEPT !.log = Append(@, ev)] ELSE m
 
 MSetUpBegin(m, l) ==
   IF ~w.life[l] THEN m ELSE
@@ -330,7 +331,9 @@ ChildResumeEnd ==
 FinalTearDownDone ==
   /\ pc = "finaltd" /\ tdq = <<>>
   /\ mon' = LET m == MProcEnd(mon)
-             IN [m EXCEPT !.done = Append(@, <<IF mode = "child" THEN curLayer ELSE "parent", m.log>>)]
+             IN IF Logging
+                THEN [m EXCEPT !.done = Append(@, <<IF mode = "child" THEN curLayer ELSE "parent", m.log>>)]
+                ELSE m
   /\ IF mode = "child"
      THEN \* child exits; the parent continues with the next one
           /\ mode' = "parent" /\ setupL' = stash[1]
